@@ -33,7 +33,7 @@ RULE = ('continuous objects: pardim 1-3, rational or not, bases open (clamped) o
         'same amounts on every elevated object; BSplineBasis.raise_order/lower_order directly.  non-trivial = some amount > 0.')
 REQUIRED_TAGS = ['model-exact-map=exact-same', 'model-exact-lower=exact-same', 'pardim=1', 'pardim=2', 'pardim=3', 'rational', 'periodic-dir', 'open-only', 'form=raise', 'form=set',
                  'form=base', 'args=single', 'args=direction', 'args=tuple', 'all-zero', 'negative', 'set-lowering',
-                 'amount=3', 'kind=basis', 'lower=ok', 'interior-mult>=2', 'ret=none', 'ret=self']
+                 'amount=3', 'kind=basis', 'lower=ok', 'interior-mult>=2', 'ret=self']
 ASSUMPTIONS = ['np.linalg.inv / scipy spsolve are modelled by exact inverses (certificate-checked in the model); their '
                'rounding error is bounded by RTOL times the measured condition number of the collocation matrix']
 
